@@ -48,7 +48,7 @@ func hRyw(dir string) {
 	tc := regattapb.NewTablesClient(leader.conn)
 	fWrites, fUnknown := 0, 0
 	done := 0
-	for sc := 0; done < n && sc < 2+n/20 && leader.alive() && follower.alive(); sc++ {
+	for sc := 0; done < n && sc < 6+n/20 && leader.alive() && follower.alive(); sc++ {
 		r := newRand(int64(9850 + sc))
 		g := newFsmGen(r)
 		m := len(g.keys)
@@ -221,7 +221,7 @@ func hRyw(dir string) {
 		}
 	}
 	ans := "ok"
-	if fWrites >= 6 && fUnknown*2 > fWrites {
+	if (fWrites >= 4 && fUnknown == fWrites) || (fWrites >= 8 && fUnknown*2 > fWrites) {
 		ans = fmt.Sprintf("MOSTLY-UNACKNOWLEDGED %d of %d", fUnknown, fWrites)
 	}
 	out.Stats["follower_writes"] += fWrites
